@@ -15,6 +15,11 @@ def Mon.obsRun (j : Mon) (l : List Obs) : Mon := l.foldl Mon.onObs j
 theorem Mon.obsRun_append (j : Mon) (a b : List Obs) : j.obsRun (a ++ b) = (j.obsRun a).obsRun b := by
   simp [Mon.obsRun, List.foldl_append]
 
+theorem foldl_obs (l : List Obs) (j : Mon) : (l.map Item.obs).foldl Mon.step j = j.obsRun l := by
+  induction l generalizing j with
+  | nil => rfl
+  | cons o l ih => exact ih (j.onObs o)
+
 theorem nextKey_gen (k : Nat) : nextKey Gen.C15.seqIncr Gen.C15.seqMax Gen.C15.seqWrapTo k = specNextKey k := by
   have e1 : Gen.C15.seqIncr = 1 := rfl
   have e2 : Gen.C15.seqMax = 4294967295 := rfl
